@@ -973,38 +973,65 @@ def _mc_key(b):
     return "%s::%s" % (b.file, b.name)
 
 
-def must_calls(crate, b):
-    """names of the crate-local functions called on every path from the entry of b to a normal return (b seen with its
-    single-use private helpers spliced in)"""
-    v = mir.inline_view(crate, b)
-    rets = v.return_blocks()
-    if not rets:
+def _direct_must_calls(crate, b):
+    """[(name, target id or None)] of the weighty crate-local calls on every path from the entry of b to a normal return"""
+    key = ("dmc", b.id)
+    if key in crate._cache:
+        return crate._cache[key]
+    rets = b.return_blocks()
+    out = []
+    if rets:
+        mods = crate._cache.get("crate_modules")
+        if mods is None:
+            mods = crate._cache["crate_modules"] = {re.sub(r"^<+", "", bid).split("::")[0].split(" ")[0] for bid in crate.bodies if not bid.startswith("<std") and not bid.startswith("<core")} - {"std", "core", "alloc"}
+        for c in b.calls:
+            if b.blocks[c.bb]["cleanup"] or not c.callee:
+                continue
+            tgt = None
+            if c.callee.target in crate.bodies:
+                t = crate.bodies[c.callee.target]
+                if t.kind == "Closure" or t.auto_derived or not (t.file or "").startswith("src/") or not t.name:
+                    continue
+                nm, tgt = t.name, t
+            else:
+                # a method of one of the library's own traits, dispatched on a type parameter (`N::make`, `L::weak_shape`)
+                tr = c.callee.trait or ""
+                if not tr or tr.split("::")[0] not in mods or tr.startswith("std::") or tr.startswith("core::"):
+                    continue
+                nm = c.callee.name
+            if b.must_pass([0], rets, {c.bb}):
+                out.append((nm, tgt))
+    crate._cache[key] = out
+    return out
+
+
+def _weighty(t):
+    """the callee can change something (&mut parameter) or does real work (not a small read-only accessor such as iter / ids /
+    len, which a refactoring replaces by an equivalent without a second thought)"""
+    live = sum(1 for bl in t.blocks if not bl["cleanup"])
+    return live >= 10 or any(t.local_ty(l).startswith("&mut") for l in range(1, t.argc + 1))
+
+
+def must_calls(crate, b, weighty_only=True):
+    """names of the weighty crate-local functions that run on every path from the entry of b to a normal return — directly or
+    inside a callee that itself runs on every path (transitive, so splitting a function into helpers or folding a helper back
+    does not change the set)"""
+    if not b.return_blocks():
         return None
-    mods = crate._cache.get("crate_modules")
-    if mods is None:
-        mods = crate._cache["crate_modules"] = {re.sub(r"^<+", "", bid).split("::")[0].split(" ")[0] for bid in crate.bodies if not bid.startswith("<std") and not bid.startswith("<core")} - {"std", "core", "alloc"}
     out = set()
-    for c in v.calls:
-        if v.blocks[c.bb]["cleanup"] or not c.callee:
+    seen = set()
+    work = [b]
+    while work:
+        f = work.pop()
+        if f.id in seen:
             continue
-        if c.callee.target in crate.bodies:
-            t = crate.bodies[c.callee.target]
-            if t.kind == "Closure" or t.auto_derived or not (t.file or "").startswith("src/") or not t.name:
-                continue
-            # only calls that carry weight: the callee can change something (&mut parameter) or does real work (not a small
-            # read-only accessor such as iter / ids / len, which a refactoring replaces by an equivalent without a second thought)
-            live = sum(1 for bl in t.blocks if not bl["cleanup"])
-            if live < 10 and not any(t.local_ty(l).startswith("&mut") for l in range(1, t.argc + 1)):
-                continue
-            nm = t.name
-        else:
-            # a method of one of the library's own traits, dispatched on a type parameter (`N::make`, `L::weak_shape`)
-            tr = c.callee.trait or ""
-            if not tr or tr.split("::")[0] not in mods or tr.startswith("std::") or tr.startswith("core::"):
-                continue
-            nm = c.callee.name
-        if v.must_pass([0], rets, {c.bb}):
-            out.add(nm)
+        seen.add(f.id)
+        for nm, t in _direct_must_calls(crate, f):
+            if t is None or not weighty_only or _weighty(t):
+                out.add(nm)
+            if t is not None:
+                work.append(t)
+    out.discard(b.name)
     return out
 
 
@@ -1060,15 +1087,21 @@ def must_call_census(ctx, crate, files):
         if len(bs) != 1:
             continue                    # the function is gone (folded into its callers) or ambiguous: no obligation here
         b = bs[0]
-        got = must_calls(crate, b)
+        got = must_calls(crate, b, weighty_only=False)       # (weight is judged on the reviewed tree only)
         if got is None:
             continue
-        # a callee that was spliced into this very function by the view, or no longer exists, cannot be missed
-        v = mir.inline_view(crate, b)
-        absorbed = {crate.bodies[x].name for x in getattr(v, "inlined", []) if x in crate.bodies}
+        # report a lost call where it was lost: not again in every function that always calls that one
+        inherited = set()
+        for nm_, t_ in _direct_must_calls(crate, b):
+            if t_ is not None and t_.name:
+                rk = ref.get(_mc_key(t_))
+                if rk:
+                    g2 = must_calls(crate, t_, weighty_only=False) or set()
+                    inherited |= {w for w in rk if w not in g2}
+        # a callee that no longer exists (folded into its callers) cannot be missed
         n += 1
         for w in want:
-            if w not in names_now or w in absorbed or w == name:
+            if w not in names_now or w == name or w in inherited:
                 continue
             ctx.check(w in got, "early-exit:%s:%s" % (fkey(b), w), "%s still calls %s on every path to a normal return" % (short(b.id), w),
                       "%s can now return normally without calling %s, which every path through it called in the reviewed tree: an early exit / fast path was put in front of work this function always did" % (short(b.id), w),
